@@ -396,14 +396,14 @@ func (a *align) RemoveCharacterSites(c []uint8, cutoff float64, ends bool, ignor
 			if reverse {
 				selected = !selected
 			}
-			if selected {
-				nbchars++
-			}
 			// If it's a gap and we ignore gaps, or if it's a N and we ignore N, then we do not count that
-			// nt/aa in the total
+			// nt/aa, neither in the total nor in the number of selected characters
 			if !((ignoreGaps && a.seqs[seq].sequence[site] == GAP) ||
 				(ignoreNs && (a.seqs[seq].sequence[site] == uint8(all) || a.seqs[seq].sequence[site] == uint8(allc)))) {
 				total++
+				if selected {
+					nbchars++
+				}
 			}
 		}
 		if (cutoff > 0.0 && float64(nbchars) >= cutoff*float64(total)) || (cutoff == 0 && nbchars > 0) {
@@ -680,13 +680,13 @@ func (a *align) RemoveCharacterSeqs(c uint8, cutoff float64, ignoreCase, ignoreG
 		total = 0
 
 		for site := 0; site < length; site++ {
-			if (seq.sequence[site] == c) || (ignoreCase && unicode.ToLower(rune(seq.sequence[site])) == unicode.ToLower(rune(c))) {
-				nbseqs++
-			}
 			// If we exclude gaps and it is a gap: we do nothing
 			// or if we exclude Ns and it is a N: we do nothing
 			if !(ignoreGaps && seq.sequence[site] == uint8(GAP)) && !(ignoreNs && (seq.sequence[site] == all || seq.sequence[site] == allc)) {
 				total++
+				if (seq.sequence[site] == c) || (ignoreCase && unicode.ToLower(rune(seq.sequence[site])) == unicode.ToLower(rune(c))) {
+					nbseqs++
+				}
 			}
 		}
 		if (cutoff > 0.0 && float64(nbseqs) >= cutoff*float64(total)) || (cutoff == 0 && nbseqs > 0) {
